@@ -180,6 +180,49 @@ def check(ctx):
     ctx.ob("C08.R2", app, "chunks are stored unthinned when thinning is disabled or 1, and "
                           "a thinned chunk is stored only when it kept something",
            len(conds) == 2, detail=f"{len(conds)} store sites")
+    # which store is reached for (apply_thinning, thinning): evaluated, not matched
+    from ..domains import concrete
+    th = ("a", ("a", SELF, "_epoch"), "thinning")
+    th_alt = ("a", ("a", SELF, "epoch"), "thinning")
+    flag = ("a", SELF, "_apply_thinning")
+    stores_ = [(t, cond) for t, _, cond in ra.calls
+               if t[1] == ("a", ("call", ("n", "super"), (), ()), "append")]
+    bad, err = [], None
+    for apply_ in (True, False):
+        for k in (1, 2, 3, 5):
+            env = {flag: apply_, th: k, th_alt: k}
+            reached = []
+            for t, cond in stores_:
+                try:
+                    hold = True
+                    for atom, pol in cond:
+                        if atom[0] == "inloop":
+                            continue
+                        try:
+                            v = bool(concrete.evaluate(atom, env))
+                        except concrete.Unmodelled:
+                            # "something was kept": not a function of the configuration
+                            if not any(x == n("chunk") for x in subterms(atom)):
+                                raise
+                            continue
+                        if v != pol:
+                            hold = False
+                            break
+                except concrete.Unmodelled as e:
+                    err = e
+                    hold = False
+                if hold:
+                    reached.append("plain" if t[2] == (n("chunk"),) else "thinned")
+            want = {"thinned"} if (apply_ and k > 1) else ({"plain"}, {"thinned"}, {"plain", "thinned"})
+            ok_c = (set(reached) == want) if isinstance(want, set) else (
+                set(reached) in want and (k == 1 or set(reached) == {"plain"}))
+            if not ok_c:
+                bad.append(f"apply_thinning={apply_}, thinning={k}: reaches {sorted(set(reached))}")
+    ctx.ob("C08.R2", app, "the thinned store is reached exactly when thinning is enabled and "
+                          "k > 1, the unthinned store otherwise (branch condition evaluated "
+                          "for apply_thinning x k in {1,2,3,5})", not bad and err is None,
+           unproven=err is not None, detail="; ".join(bad[:3]) or str(err or ""),
+           stmt="thinning branch " + "; ".join(bad[:2]))
 
     # ------------------------------------------------------------------ R3
     einit = method(repo, eng, "__init__")
